@@ -150,6 +150,7 @@ def chords(ctx):
     ci = mi.classes[cname]
     enc, dec, nc = ci.methods['encode_event'], ci.methods['decode_event'], ci.methods['num_classes']
     ix = dec.params()[1]
+    block_split(ctx, dec, ix, env0, cname)
     ep = [(g, e, rn) for (g, e, rn) in iface.pieces(enc.node) if not (isinstance(e, ast.Constant))]
     dp = [(g, d, rn) for (g, d, rn) in iface.pieces(dec.node) if not isinstance(d, ast.Name)]
     ctx.require(len(ep) == nq and len(dp) == nq, '%s: expected %d encode/decode pieces, found %d/%d' % (cname, nq, len(ep), len(dp)))
@@ -210,6 +211,35 @@ def chords(ctx):
     zd = [s for s in dec.node.body if isinstance(s, ast.If)]
     ok = len(zero) == 1 and zd and 'NO_CHORD' in norm_text(zd[0].body[0])
     ctx.ob('INV/chords-no-chord', enc, zero[0] if zero else enc.node, ok, 'NO_CHORD <-> 0' if ok else '%s does not map NO_CHORD to index 0 and back' % cname, construct='%s NO_CHORD' % cname)
+
+
+def block_split(ctx, dec, ix, env0, cname):
+  """Location-independent: index 0 is NO_CHORD, so the 12 roots of quality k occupy 12k+1 .. 12k+12.  However the decoder splits
+  an index into (quality, root) - divmod, //, % by the octave - the dividend must be index - 1 (for %, congruent to it modulo
+  12): splitting `index` itself sends every multiple of 12 to the wrong block."""
+  fn = dec.node
+  want = nf.rat(E('%s - 1' % ix))
+  for n in ast.walk(fn):
+    kind = None
+    if isinstance(n, ast.Call) and dotted(n.func) == 'divmod' and len(n.args) == 2:
+      kind, dividend, divisor = 'divmod', n.args[0], n.args[1]
+    elif isinstance(n, ast.BinOp) and isinstance(n.op, (ast.FloorDiv, ast.Mod)):
+      kind, dividend, divisor = ('//' if isinstance(n.op, ast.FloorDiv) else '%'), n.left, n.right
+    if kind is None:
+      continue
+    try:
+      if nf.Builder(env0).rat(divisor).const_value() != 12:
+        continue
+      diff = (nf.Builder(env0).rat(U.expand_locals(fn, dividend, at=n)) - want).const_value()
+    except (nf.NFError, AttributeError):
+      continue
+    if diff is None:
+      continue
+    if diff == 0 or (kind == '%' and diff % 12 == 0):
+      ctx.ob('INV/chords-block-split', dec, n, True, '%s splits index - 1 into (quality, root)' % cname, construct='%s %s by the octave' % (cname, kind), definite=True)
+    elif diff % 12 != 0:
+      ctx.ob('INV/chords-block-split', dec, n, False, '%s: %s splits %s, which is index - 1 %+d: index 0 is NO_CHORD and quality k owns 12k+1 .. 12k+12, so indices that are multiples '
+             'of 12 (the chords on B) decode into the neighbouring quality' % (cname, norm_text(n), norm_text(dividend), diff), construct='%s %s by the octave' % (cname, kind), definite=True)
 
 
 # ------------------------------------------------------------------ performance
